@@ -428,3 +428,13 @@ def tree(rng):
     else:
         rows.append("+--")
     return "\n".join(rows), arrows
+
+
+def bus(k, step=4):
+    """a bus with k taps: a label row, k risers that do not touch each other, one more riser at the far left that starts
+    one row lower, and a rail joining them (the grouping needs about one pass per tap)"""
+    rows = ["  " + "".join(("t%d" % (i % 10)).ljust(step) for i in range(k))]
+    rows.append("  " + "".join("|".ljust(step) for i in range(k)))
+    rows.append("| " + "".join("|".ljust(step) for i in range(k)))
+    rows.append("+-" + "".join(("+" + "-" * (step - 1)) for i in range(k)))
+    return "\n".join(r.rstrip() for r in rows)
